@@ -237,6 +237,21 @@ pub trait DynEngine: Sync {
 /// watching (e.g. in a Drop, or while the harness reads a graph back) is a violation of class
 /// `panic`; a panic of the harness itself ends the process with status 3.
 pub fn exec_caught<E: Engine>(e: &E, sc: &E::Sc, stats: &mut Stats) -> Option<(Violation, E::Sc)> {
+    // every run starts with identity keys; an engine that varies them installs its style itself
+    crate::keys::set_style(0);
+    let r = exec_caught_inner(e, sc, stats);
+    let r = match (r, crate::keys::describe()) {
+        (Some((mut v, sc)), Some(d)) => {
+            v.detail.push_str(&format!(" [nodes are named by index; keys of this run: {d}]"));
+            Some((v, sc))
+        }
+        (r, _) => r,
+    };
+    crate::keys::set_style(0);
+    r
+}
+
+fn exec_caught_inner<E: Engine>(e: &E, sc: &E::Sc, stats: &mut Stats) -> Option<(Violation, E::Sc)> {
     match crate::locks::caught(|| e.execute(sc, stats)) {
         crate::locks::Caught::Ok(r) => r,
         crate::locks::Caught::Panic(m) if m.contains("@ src/") => Some((
